@@ -2,18 +2,31 @@
 SPEC = dict(
     prop="C24",
     proof_module="SimbodyProofs.C24",
-    sources=["SimbodyModel/Proto.lean", "SimbodyModel/C24.lean", "SimbodyProofs/C24.lean", "Drivers/C24.lean"],
+    sources=["SimbodyModel/Proto.lean", "SimbodyModel/C24.lean", "SimbodyProofs/C24_lemmas.lean", "SimbodyProofs/C24.lean",
+             "Drivers/C24.lean"],
     n=dict(quick=400, thorough=6000),
     rtol=1e-9, atol=1e-12,
-    rule="random matrices of sizes 1..12 (thorough: 1..40), float and double: generic, nearly singular (one row almost a "
-         "combination of two others), small-integer, SPD, exactly rank-deficient small-integer products, tall / wide / square; "
-         "vector and matrix right-hand sides, repeated solves, refactorisation of the same object, inverses; complex<double> "
-         "LU and SVD solves through the real embedding; API-behaviour cases (zero sizes, complex QTZ/Eigen, default rcond "
-         "through the rank of diag(1,t)); every record is judged by the exact-rational contract in the Lean driver and by the "
-         "same predicate in long double; distinct = distinct input records",
-    partial="LAPACK/OpenBLAS are not modelled: the check is acceptance of the returned doubles by exact-rational contracts "
-            "(backward-error residuals, normal equations, orthogonality to the exact null space, exact rank, A = U S V', "
-            "A v = lambda v, A X = X A = I) whose soundness and meaning are theorems; determinants are not offered by the API; "
-            "the symmetric (syev) eigen path is unreachable through the public API and is not exercised",
-    assumptions=["tolerances are c*n*eps with c = 64..1024 (measured margins in notes/C24.md)"],
+    rule="random matrices of sizes 1..12 plus a guaranteed share of 13..40 (thorough: 1..40), float and double: generic, nearly "
+         "singular, graded singular values, small-integer, SPD, exactly rank-deficient small-integer products, numerically "
+         "rank-deficient (noise below a user rcond), tall / wide / square, |A| or |b| near under/overflow, negator<> element "
+         "types; vector and matrix right-hand sides, repeated solves, refactorisation (LU, LLT, QTZ, SVD), inverses (LU, LLT, QTZ, "
+         "SVD) and pseudo-inverses (QTZ, SVD); eigen: general, symmetric-valued, repeated, defective, small-scale; complex<double> "
+         "LU and SVD solves through the real embedding; API-behaviour cases; default rcond through the rank / truncation of "
+         "diag(1,t,0..) of random shapes; every record is judged by the exact-rational contract in the Lean driver and by the "
+         "same predicate in long double; coverage floors per family; distinct = distinct input records",
+    partial="NO clause is 'proved about the implementation': LAPACK/OpenBLAS are not modelled.  (i) proved: what the statements "
+            "mean for exact arithmetic (unique solution of an invertible system; normal equations + range(A^T) <=> unique "
+            "minimum-norm least-squares solution; the rank-by-threshold rule is a prefix rule) - these theorems are NOT linked "
+            "to contract acceptance by any theorem.  (ii) predicate / exact-rational contract only: LU, LLT, QTZ, SVD solve "
+            "residuals; normal equations; minimum norm against an exact null basis that is certified at run time (each vector "
+            "exactly in the kernel, unit pattern, count + rank = n, rank A = rank A^T, agreement with the rank QTZ reports) but "
+            "whose generator (rref) is not proved correct; SVD factorisation (real types); eigenpairs of real general matrices "
+            "incl. spectrum completeness by power sums; inverses and pseudo-inverses; QTZ's condition estimate within 4x of "
+            "sigma_r/sigma_1 taken from FactorSVD; default and user rcond through rank decisions.  (iii) not covered / masked: "
+            "'correct numerical rank' of FactorSVD::getRank is permanently masked by the known finding "
+            "svd.getRank.always_zero (the rank rule is only checked on the returned singular values); ordered eigenvalues for "
+            "symmetric input (no symmetric path exists - known finding); complex QTZ / Eigen (known findings), complex<float>, "
+            "conjugate<> element types, complex LLT / SVD factors; determinants (no API)",
+    assumptions=["tolerances are c*n*eps with c = 16 (LU/LLT solve), 32 (LS, SVD, LU inverse), 64 (LLT inverse), 128 (eigen, QTZ/SVD "
+                 "square solves), 256+ (pseudo-inverse, graded inverses); worst measured 0.05 of the bound"],
 )
